@@ -6,7 +6,8 @@
  * The wrapped streams are in-memory: a sink that records every append, and a source that hands out scripted
  * prefixes (every chunking) from exact-size heap copies (so that ASan sees any over-read).
  *
- * Same line protocol as `sqfsmodel c15` (ops `ostream`, `istream`).
+ * Same line protocol as `sqfsmodel c15` (ops `ostream`, `istream`, and `ostreamx` / `istreamx`: the same with a wrapped stream whose
+ * k-th append / flush / get_buffered_data call fails with a given code).
  */
 #include "config.h"
 #include "compat.h"
@@ -14,12 +15,24 @@
 #include "sqfs/error.h"
 #include "xfrm/stream.h"
 #include "xfrm/wrap.h"
+#ifdef H_REAL_CODECS
+#include "xfrm/compress.h"
+#endif
 #include "hexio.h"
 #include "cpu_watchdog.h"
 #include <assert.h>
 
 #ifndef H_BUFSZ
 #error "H_BUFSZ must be set to the BUFSZ the xfrm wrappers were compiled with"
+#endif
+/* CPU seconds allowed per scenario before the watchdog declares a hang (scenarios need milliseconds with the toy codec and
+ * small buffers; real codecs under ASan and the real buffer size need well under a second) */
+#ifndef H_WATCHDOG_S
+#ifdef H_REAL_CODECS
+#define H_WATCHDOG_S 10
+#else
+#define H_WATCHDOG_S (H_BUFSZ < 65536 ? 1 : 60)
+#endif
 #endif
 
 /* ------------------------------------------------------------------ byte queue */
@@ -143,24 +156,55 @@ static xfrm_stream_t *toy_create(int is_dec, size_t a, size_t g, size_t th)
 }
 
 /* ------------------------------------------------------------------ sink */
-typedef struct { sqfs_ostream_t base; bq_t data; unsigned flushes; } sink_t;
+typedef struct {
+	sqfs_ostream_t base; bq_t data; unsigned flushes;
+	unsigned long appends;			/* calls of append so far */
+	long append_fail_at, flush_fail_at;	/* call number that fails (-1: none) */
+	int append_fail_code, flush_fail_code;
+} sink_t;
 static int sink_append(sqfs_ostream_t *s, const void *d, size_t n)
 {
 	sink_t *k = (sink_t *)s;
+	if (k->append_fail_at >= 0 && (unsigned long)k->append_fail_at == k->appends && k->append_fail_code != 0) {
+		k->appends++;
+		return k->append_fail_code;	/* nothing is stored */
+	}
+	k->appends++;
 	if (d == NULL) { size_t i; for (i = 0; i < n; ++i) bq_push1(&k->data, 0); }
 	else bq_push(&k->data, d, n);
 	return 0;
 }
-static int sink_flush(sqfs_ostream_t *s) { ((sink_t *)s)->flushes++; return 0; }
+static int sink_flush(sqfs_ostream_t *s)
+{
+	sink_t *k = (sink_t *)s;
+	if (k->flush_fail_at >= 0 && (unsigned long)k->flush_fail_at == k->flushes && k->flush_fail_code != 0)
+		return k->flush_fail_code;
+	k->flushes++;
+	return 0;
+}
 static const char *sink_name(sqfs_ostream_t *s) { (void)s; return "sink"; }
 static void sink_destroy(sqfs_object_t *o) { sink_t *k = (sink_t *)o; free(k->data.p); free(k); }
 static sink_t *sink_create(void)
 {
 	sink_t *k = calloc(1, sizeof(*k));
 	if (!k) abort();
+	k->append_fail_at = k->flush_fail_at = -1;
 	k->base.append = sink_append; k->base.flush = sink_flush; k->base.get_filename = sink_name;
 	sqfs_object_init(k, sink_destroy, NULL);
 	return k;
+}
+
+/* "k:e" or "-" */
+static int parse_fail(const char *t, long *at, int *code)
+{
+	char *e;
+	*at = -1; *code = 0;
+	if (strcmp(t, "-") == 0) return 0;
+	*at = strtol(t, &e, 10);
+	if (*e != ':' || *at < 0) return -1;
+	*code = (int)strtol(e + 1, &e, 10);
+	if (*e) return -1;
+	return 0;
 }
 
 /* ------------------------------------------------------------------ scripted source */
@@ -169,12 +213,16 @@ typedef struct {
 	unsigned char *data; size_t len, pos;
 	size_t *script; size_t nscript, si;
 	unsigned char *window; size_t wlen;	/* exact-size copy handed out last */
+	unsigned long gets;			/* calls of get_buffered_data so far */
+	long fail_at; int fail_code;		/* that call returns fail_code < 0 */
 } src_t;
 static int src_get(sqfs_istream_t *s, const sqfs_u8 **out, size_t *size, size_t want)
 {
 	src_t *r = (src_t *)s;
 	size_t left = r->len - r->pos, n;
 	(void)want;
+	if (r->fail_at >= 0 && (unsigned long)r->fail_at == r->gets && r->fail_code < 0) { r->gets++; *out = NULL; *size = 0; return r->fail_code; }
+	r->gets++;
 	free(r->window); r->window = NULL; r->wlen = 0;
 	if (left == 0) { if (r->si < r->nscript) r->si++; *out = NULL; *size = 0; return 1; }
 	n = left;
@@ -229,19 +277,40 @@ static void print_nats(const size_t *v, size_t n)
 
 #define MAXTOK 4096
 
-static void do_ostream(char **tok, int ntok)
+/* the codec under the wrappers: the toy codec, or (ops `rostream` / `ristream`, built with -DH_REAL_CODECS against the real
+ * library) a real compressor / decompressor of lib/xfrm named in place of the three toy knobs: `<codec> 0 0` */
+static xfrm_stream_t *make_codec(int is_dec, int real, char **tok, size_t a, size_t g, size_t th)
 {
-	size_t b, a, g, th;
+	if (!real) return toy_create(is_dec, a, g, th);
+#ifdef H_REAL_CODECS
+	{
+		int id = xfrm_compressor_id_from_name(tok[2]);
+		if (id <= 0) return NULL;
+		return is_dec ? decompressor_stream_create(id) : compressor_stream_create(id, NULL);
+	}
+#else
+	(void)tok;
+	return NULL;
+#endif
+}
+
+static void do_ostream(char **tok, int ntok, int with_failures, int real)
+{
+	size_t b, a = 0, g, th;
 	sink_t *sink;
 	xfrm_stream_t *x;
 	sqfs_ostream_t *o;
-	int i, rc = 0;
-	if (ntok < 5 || parse_nat(tok[1], &b) || parse_nat(tok[2], &a) || parse_nat(tok[3], &g) || parse_nat(tok[4], &th)) { puts("bad-op"); return; }
+	int i, rc = 0, first = with_failures ? 7 : 5;
+	long af = -1, ff = -1; int ac = 0, fc = 0;
+	if (ntok < first || parse_nat(tok[1], &b) || (!real && parse_nat(tok[2], &a)) || parse_nat(tok[3], &g) || parse_nat(tok[4], &th)) { puts("bad-op"); return; }
+	if (with_failures && (parse_fail(tok[5], &af, &ac) || parse_fail(tok[6], &ff, &fc))) { puts("bad-op"); return; }
 	if (b != H_BUFSZ) { puts("bad-bufsz"); return; }
 	sink = sink_create();
-	x = toy_create(0, a, g, th);
+	sink->append_fail_at = af; sink->append_fail_code = ac; sink->flush_fail_at = ff; sink->flush_fail_code = fc;
+	x = make_codec(0, real, tok, a, g, th);
+	if (!x) { puts("bad-op"); sqfs_drop(sink); return; }
 	o = ostream_xfrm_create((sqfs_ostream_t *)sink, x);
-	for (i = 5; i < ntok && rc == 0; ++i) {
+	for (i = first; i < ntok && rc == 0; ++i) {
 		if (strcmp(tok[i], "f") == 0) rc = o->flush(o);
 		else if (tok[i][0] == 'a' && tok[i][1] == ':') {
 			unsigned char *d; long n = hex_decode_tok(tok[i] + 2, &d, 0);
@@ -256,15 +325,17 @@ static void do_ostream(char **tok, int ntok)
 	}
 	if (rc) { printf("err %d ", rc); hex_print(stdout, sink->data.p, sink->data.n); putchar('\n'); }
 	else {
-		fputs("ok ", stdout); hex_print(stdout, sink->data.p, sink->data.n); printf(" %u\n", sink->flushes);
+		fputs("ok ", stdout); hex_print(stdout, sink->data.p, sink->data.n);
+		if (with_failures) printf(" %u %lu\n", sink->flushes, sink->appends); else printf(" %u\n", sink->flushes);
 	}
 out:
 	sqfs_drop(o); sqfs_drop(x); sqfs_drop(sink);
 }
 
-static void do_istream(char **tok, int ntok)
+static void do_istream(char **tok, int ntok, int with_failures, int real)
 {
-	size_t b, a, g, th, nclient = 0, i, nsizes = 0, *sizes;
+	long fat = -1; int fcode = 0;
+	size_t b, a = 0, g, th, nclient = 0, i, nsizes = 0, *sizes;
 	src_t *src;
 	xfrm_stream_t *x;
 	sqfs_istream_t *in;
@@ -272,9 +343,11 @@ static void do_istream(char **tok, int ntok)
 	long n;
 	char *save = NULL, *t;
 	int eof = 0, rc = 0;
-	if (ntok != 8 || parse_nat(tok[1], &b) || parse_nat(tok[2], &a) || parse_nat(tok[3], &g) || parse_nat(tok[4], &th)) { puts("bad-op"); return; }
+	if (ntok != (with_failures ? 9 : 8) || parse_nat(tok[1], &b) || (!real && parse_nat(tok[2], &a)) || parse_nat(tok[3], &g) || parse_nat(tok[4], &th)) { puts("bad-op"); return; }
+	if (with_failures && parse_fail(tok[8], &fat, &fcode)) { puts("bad-op"); return; }
 	if (b != H_BUFSZ) { puts("bad-bufsz"); return; }
 	src = calloc(1, sizeof(*src));
+	src->fail_at = fat; src->fail_code = fcode;
 	n = hex_decode_tok(tok[5], &src->data, 0);
 	if (n < 0) { puts("bad-op"); free(src); return; }
 	src->len = (size_t)n;
@@ -282,7 +355,8 @@ static void do_istream(char **tok, int ntok)
 	if (!src->script) { puts("bad-op"); free(src->data); free(src); return; }
 	src->base.get_buffered_data = src_get; src->base.advance_buffer = src_advance; src->base.get_filename = src_name;
 	sqfs_object_init(src, src_destroy, NULL);
-	x = toy_create(1, a, g, th);
+	x = make_codec(1, real, tok, a, g, th);
+	if (!x) { puts("bad-op"); sqfs_drop(src); return; }
 	in = istream_xfrm_create((sqfs_istream_t *)src, x);
 	sizes = malloc(sizeof(*sizes) * (strlen(tok[7]) + 2));
 	if (strcmp(tok[7], "-") != 0) {
@@ -307,11 +381,97 @@ static void do_istream(char **tok, int ntok)
 	if (rc < 0) { printf("err %d ", rc); hex_print(stdout, acc.p, acc.n); putchar(' '); print_nats(sizes, nsizes); putchar('\n'); }
 	else {
 		fputs("ok ", stdout); hex_print(stdout, acc.p, acc.n);
-		printf(" %d %zu ", eof, src->len - src->pos); print_nats(sizes, nsizes); putchar('\n');
+		printf(" %d %zu ", eof, src->len - src->pos); print_nats(sizes, nsizes);
+		if (with_failures) printf(" %lu", src->gets);
+		putchar('\n');
 	}
 out:
 	free(sizes); free(acc.p);
 	sqfs_drop(in); sqfs_drop(x); sqfs_drop(src);
+}
+
+/* rcall <codec> <c|d> <mode>:<room>:<in hex> ...  -> per call `ret,consumed,<out hex>`: the real process_data of a real codec, call by call */
+static void do_rcall(char **tok, int ntok)
+{
+#ifdef H_REAL_CODECS
+	int i, id;
+	xfrm_stream_t *x;
+	if (ntok < 3) { puts("bad-op"); return; }
+	id = xfrm_compressor_id_from_name(tok[1]);
+	if (id <= 0 || (tok[2][0] != 'c' && tok[2][0] != 'd')) { puts("bad-op"); return; }
+	x = tok[2][0] == 'c' ? compressor_stream_create(id, NULL) : decompressor_stream_create(id);
+	if (!x) { puts("bad-op"); return; }
+	for (i = 3; i < ntok; ++i) {
+		char *a = tok[i], *b = strchr(a, ':'), *c;
+		unsigned char *in, *out;
+		long n, mode;
+		unsigned long room;
+		sqfs_u32 in_read = 0, out_written = 0;
+		int ret;
+		if (!b || !(c = strchr(b + 1, ':'))) { fputs("bad-op", stdout); break; }
+		*b = 0; *c = 0;
+		mode = strtol(a, NULL, 10); room = strtoul(b + 1, NULL, 10);
+		n = hex_decode_tok(c + 1, &in, 0);
+		if (n < 0) { fputs("bad-op", stdout); break; }
+		out = malloc(room ? room : 1);
+		ret = x->process_data(x, in, (sqfs_u32)n, out, (sqfs_u32)room, &in_read, &out_written, (int)mode);
+		if (i > 3) putchar(' ');
+		printf("%d,%u,", ret, in_read);
+		hex_print(stdout, out, out_written);
+		free(in); free(out);
+	}
+	putchar('\n');
+	sqfs_drop(x);
+#else
+	(void)tok; (void)ntok;
+	puts("bad-op");
+#endif
+}
+
+/* rfeed <codec> <c|d> <room> <chunk> <stream hex>: drive the real process_data like the wrappers do — offer at most <chunk> bytes of
+ * what is left with FLUSH_NONE, re-offering what was not consumed; once nothing is left, FLUSH_FULL without input until END, an
+ * error, or a call that neither consumes nor produces.  Trace: per call `mode,avail,ret,consumed,<out hex>` */
+static void do_rfeed(char **tok, int ntok)
+{
+#ifdef H_REAL_CODECS
+	int id, first = 1;
+	xfrm_stream_t *x;
+	unsigned char *data, *out;
+	long n;
+	size_t room, chunk, pos = 0, rounds = 0;
+	if (ntok != 6 || parse_nat(tok[3], &room) || parse_nat(tok[4], &chunk) || room == 0 || chunk == 0) { puts("bad-op"); return; }
+	id = xfrm_compressor_id_from_name(tok[1]);
+	if (id <= 0 || (tok[2][0] != 'c' && tok[2][0] != 'd')) { puts("bad-op"); return; }
+	n = hex_decode_tok(tok[5], &data, 0);
+	if (n < 0) { puts("bad-op"); return; }
+	x = tok[2][0] == 'c' ? compressor_stream_create(id, NULL) : decompressor_stream_create(id);
+	if (!x) { puts("bad-op"); free(data); return; }
+	out = malloc(room);
+	for (;;) {
+		size_t avail = min_sz(chunk, (size_t)n - pos);
+		int mode = avail > 0 ? XFRM_STREAM_FLUSH_NONE : XFRM_STREAM_FLUSH_FULL, ret;
+		sqfs_u32 ir = 0, ow = 0;
+		unsigned char *in = malloc(avail ? avail : 1);	/* exact-size copy: ASan sees any over-read */
+		if (avail) memcpy(in, data + pos, avail);
+		ret = x->process_data(x, in, (sqfs_u32)avail, out, (sqfs_u32)room, &ir, &ow, mode);
+		if (!first) putchar(' ');
+		first = 0;
+		printf("%d,%zu,%d,%u,", mode, avail, ret, ir);
+		hex_print(stdout, out, ow);
+		free(in);
+		if (ir > avail) { fputs(" OVERCONSUMED", stdout); break; }
+		pos += ir;
+		if (ret == XFRM_STREAM_ERROR) break;
+		if (avail == 0 && (ret == XFRM_STREAM_END || ow == 0)) break;
+		if (++rounds > 2000000) { fputs(" ROUNDS", stdout); break; }
+	}
+	putchar('\n');
+	free(out); free(data);
+	sqfs_drop(x);
+#else
+	(void)tok; (void)ntok;
+	puts("bad-op");
+#endif
 }
 
 int main(void)
@@ -324,9 +484,15 @@ int main(void)
 		char *save = NULL, *t;
 		for (t = strtok_r(line, " \n", &save); t && ntok < MAXTOK; t = strtok_r(NULL, " \n", &save)) tok[ntok++] = t;
 		if (ntok == 0) { puts("bad-op"); continue; }
-		verif_cpu_watchdog(H_BUFSZ < 65536 ? 1 : 60);	/* CPU seconds per scenario; they need milliseconds (small buffers) / well under a second */
-		if (strcmp(tok[0], "ostream") == 0) do_ostream(tok, ntok);
-		else if (strcmp(tok[0], "istream") == 0) do_istream(tok, ntok);
+		verif_cpu_watchdog(H_WATCHDOG_S);	/* CPU seconds per scenario; they need milliseconds (small buffers) / well under a second */
+		if (strcmp(tok[0], "ostream") == 0) do_ostream(tok, ntok, 0, 0);
+		else if (strcmp(tok[0], "istream") == 0) do_istream(tok, ntok, 0, 0);
+		else if (strcmp(tok[0], "ostreamx") == 0) do_ostream(tok, ntok, 1, 0);
+		else if (strcmp(tok[0], "istreamx") == 0) do_istream(tok, ntok, 1, 0);
+		else if (strcmp(tok[0], "rostream") == 0) do_ostream(tok, ntok, 0, 1);
+		else if (strcmp(tok[0], "ristream") == 0) do_istream(tok, ntok, 0, 1);
+		else if (strcmp(tok[0], "rcall") == 0) do_rcall(tok, ntok);
+		else if (strcmp(tok[0], "rfeed") == 0) do_rfeed(tok, ntok);
 		else puts("bad-op");
 		verif_cpu_watchdog(0);
 		fflush(stdout);
